@@ -99,6 +99,24 @@ def main():
         path = os.path.join(os.path.dirname(os.path.dirname(os.path.abspath(__file__))), 'selftest_expected.json')
         json.dump(exp, open(path, 'w'), indent=1, sort_keys=True)
         print('wrote', path)
+    if '--table' in sys.argv:
+        # markdown table for DESIGN.md section 29
+        rows = ['| change | breaks | what it does | reported by (property[rules]) |', '|---|---|---|---|']
+        fixes = {k['id']: k for k in json.load(open('/verif/known_findings.json'))['fixed']}
+        for name, out, _e in results:
+            if out is None:
+                continue
+            det = {p: r for p, r in out.items() if not r[0].startswith('ERR')}
+            kind, ident = name.split()
+            if kind == 'seed':
+                meta = json.load(open(f'/verif/seeded/{ident}/meta.json'))
+                what, target = meta.get('summary', '')[:150].replace('|', '/'), ident.split('-')[0]
+            else:
+                fx = fixes.get('F' + str(int(ident[1:])), {})
+                what, target = 'reverse of fix ' + ident + ': ' + fx.get('what', '')[:110].replace('|', '/'), ''
+            rows.append(f"| {name} | {target} | {what} | {' '.join(f'{p}[{','.join(r)}]' for p, r in det.items())} |")
+        open('/tmp/seed_table.md', 'w').write('\n'.join(rows) + '\n')
+        print('wrote /tmp/seed_table.md')
     for i in range(14):
         sh(f'git -C /repo worktree remove --force {WT_BASE}_{i}')
 
